@@ -639,6 +639,99 @@ def _sub_case(arg):
     return out
 
 
+WITH_SRCS = ['def work():\n    with a:\n        with b:\n            with c:\n                body()\n    after()\n',
+             'with a:\n    with b:\n        x = 1\n',
+             'if t:\n    with a:\n        with b:\n            with c:\n                with d:\n                    pass\nelse:\n    with e:\n        with f:\n            g()\n']
+WITH_REPLS = {'one': 'with __FST_outer, __FST_inner:\n    __FST_body',
+              'two': 'with __FST_outer, __FST_inner:\n    __FST_body\nmerged()',
+              'pre': 'merged()\nwith __FST_outer, __FST_inner:\n    __FST_body'}
+LIST_SUB_SRCS = ['x = [[[a]]]', 'y = [[a], [[b]], c]']
+
+
+def subdet_cases(quick=False):
+    """deterministic sub()/subn() runs: statement patterns with one- and two-statement templates (slice put: the matched
+    node is not kept), expression patterns, loop in {False, True, 2, 3}, nested, on, back, count"""
+    out = []
+    for src in WITH_SRCS[:2 if quick else 3]:
+        for rn in WITH_REPLS:
+            for loop in (False, True, 2, 3):
+                for nested in (False, True):
+                    for on in ('enter', 'leave'):
+                        for back in (False, True):
+                            for count in (0,) if quick else (0, 1):
+                                out.append(dict(src=src, pat='with', repl=rn, loop=loop, nested=nested, on=on, back=back, count=count))
+    for src in LIST_SUB_SRCS:
+        for loop in (False, True, 2):
+            for nested in (False, True):
+                for on in ('enter', 'leave'):
+                    for back in (False, True):
+                        out.append(dict(src=src, pat='list1', repl='elt', loop=loop, nested=nested, on=on, back=back, count=0))
+    return out
+
+
+def _subdet_case(c):
+    """-> [(on, failure class, detail, witness)]; valid templates by construction, so ANY exception is a verdict"""
+    from fst import FST
+    import fst.match as M
+    out = []
+    root = FST(c['src'], 'exec')
+    if c['pat'] == 'with':
+        pat = M.MWith(items=M.M(outer=...), body=[M.MWith(items=M.M(inner=...), body=M.M(body=...))])
+        repl = WITH_REPLS[c['repl']]
+    else:
+        pat = M.MList(elts=[M.M(e=...)])
+        repl = '__FST_e'
+    w = dict(c, consumer='subdet')
+    calls = []
+    after = []
+
+    class Stop(Exception):
+        pass
+
+    def in_tree(f):
+        a = getattr(f, 'a', None)
+        return a is not None and getattr(a, 'f', None) is f and any(x is a for x in ast.walk(root.a))
+
+    def callback(f):
+        calls.append(f)
+        if len(calls) > 200:
+            raise Stop()
+        if not in_tree(f):
+            out.append((c['on'], 'sub-dead-node', f'sub() is about to substitute a node which is not part of the tree ({f!r})', w))
+        return False
+
+    def callback_after(f):
+        after.append(f)
+        if not in_tree(f):
+            out.append((c['on'], 'sub-dead-node', f'sub() reports a substituted node which is not part of the tree ({f!r})', w))
+
+    try:
+        _, uniq, total = root.subn(pat, repl, c['nested'], count=c['count'], loop=c['loop'], on=c['on'], back=c['back'],
+                                   callback=callback, callback_after=callback_after, norm=True)
+    except Stop:
+        if not (c['nested'] and c['repl'] != 'one'):
+            out.append((c['on'], 'sub-unbounded', 'sub() keeps substituting (more than 200 substitutions)', w))
+        return out
+    except Exception as e:
+        out.append((c['on'], 'sub-raised', f'sub() raised {type(e).__name__}: {e}', w))
+        return out
+    d = util.tree_equals_parse(root)
+    if d:
+        out.append((c['on'], 'sub-final-tree', 'after sub(): ' + d, w))
+        return out
+    if total != len(after) or uniq > total:
+        out.append((c['on'], 'sub-count', f'subn() reports {uniq}/{total} substitutions, callback_after was called {len(after)} times', w))
+    if c['pat'] == 'with' and c['repl'] != 'one':
+        n = sum(1 for x in ast.walk(root.a) if isinstance(x, ast.Call) and getattr(x.func, 'id', None) == 'merged')
+        if n != total:
+            out.append((c['on'], 'sub-count', f'{total} substitutions but {n} marker statements in the result', w))
+    names0 = sorted(x.id for x in ast.walk(ast.parse(c['src'])) if isinstance(x, ast.Name))
+    names1 = sorted(x.id for x in ast.walk(root.a) if isinstance(x, ast.Name) and x.id != 'merged')
+    if names0 != names1:
+        out.append((c['on'], 'sub-lost-nodes', f'names before {names0} after {names1}', w))
+    return out
+
+
 class _Rejected(Exception):
     pass
 
@@ -661,7 +754,7 @@ SCOPE_ACTS = [[['replace', 'cur', 'zz']], [['replace', 'cur', 'zz'], ['send', Tr
               [['replace', 'cur', 'zz.ww(yy)']], [['remove', 'cur']], [['send', True]], [['send', False]]]
 
 
-def scope_cases():
+def scope_cases(quick=False):
     """oracle only (the scope helpers are not modelled): on every yield of a scope walk -- first iterators and walrus
     targets of (nested) comprehensions, defaults, decorators, bases, annotations, type parameters -- replace / remove
     exactly the yielded node and / or send, for all in {False, True, a type}, both directions"""
@@ -669,12 +762,51 @@ def scope_cases():
     for src in SCOPE_SRCS:
         n = sum(1 for _ in ast.walk(ast.parse(src)))
         for all_ in 'FTN':
-            ny = min(n, 36) if all_ == 'T' else min(n, 22)
+            ny = min(n, 26 if quick else 36) if all_ == 'T' else min(n, 16 if quick else 22)
             for back in (False, True):
                 for k in range(ny):
-                    for acts in SCOPE_ACTS:
+                    for acts in (SCOPE_ACTS[:5] if quick else SCOPE_ACTS):
                         out.append(dict(on='enter', back=back, recurse=True, self_=True, scope=True, src=src, wroot=[0],
                                         script=[[k, acts]], all=all_, mode='exec'))
+    return out
+
+
+CATALOGUE = [
+    'raise X from Y', 'raise X(a) from Y.b',
+    'try:\n    a\nexcept E as n:\n    b\nexcept (F, G):\n    c\nelse:\n    d\nfinally:\n    e\n',
+    'try:\n    a\nfinally:\n    b\n',
+    '@d1\n@d2(x)\ndef f(a, b=1, *c, d: int = 2, **e) -> r:\n    return a\n',
+    '@d1\nclass C(B1, B2, k=v):\n    x = 1\n',
+    'x = {a: b, **c, d: e}', 'f(a, *b, k=v, **kw)', 'with a as b, c as d:\n    pass\n', 'with (a as b):\n    x\n    y\n',
+    'x = a[b:c:d, e]', 'x = a < b <= c != d', 'x = a and b or c', 'x = not a and b',
+    'if a:\n    b\nelse:\n    c\n', 'if a:\n    b\nelif c:\n    d\n', 'while a:\n    b\nelse:\n    c\n',
+    'for i in x:\n    b\nelse:\n    c\n', 'x = [i for i in a if b if c]', 'x = {k: v for k, v in a for j in b}',
+    'x = lambda a, b=1, *c, d=2: a', 'x: int = 1', 'x += 1', 'x = y = z', 'del a, b, c', 'import a, b as c',
+    'from m import a, b as c', 'assert a, b', 'r = (yield a)', 'x = a if b else c',
+    'match s:\n    case [a, *b]:\n        pass\n    case {"k": v, **r}:\n        pass\n    case C(p, q=r) | D():\n        pass\n',
+    'x = f"{a}{b!r:>{w}}"', 'x = (a := b)',
+    'async def f():\n    await a\n    async for i in x: pass\n    async with a as b: pass\n',
+    'type T[U] = list[U]', 'x = a, *b', 'x = a.b.c', 'x = -a + ~b', 'def f():\n    "doc"\n    pass\n',
+    'def g():\n    if a:\n        b\n    c\n', 'x = [a, b]; y = (c, d); z = {e, f}',
+]
+
+
+def catalogue_cases(quick=False):
+    """every statement / expression kind with optional and list children: at each yield remove or replace the node just
+    yielded or a sibling (edits that implicitly remove or re-home other subtrees: Raise.exc -> cause, handler type -> name,
+    Dict key <-> value, the last element of a block, a BoolOp operand, ...); compared through observed trees, judged by the
+    oracle (in particular: every yield is in the CURRENT plain-ast tree of the root, detached nodes are dead)"""
+    out = []
+    for src in CATALOGUE:
+        n = sum(1 for a in ast.walk(ast.parse(src)) if R.vis_of(a, 'F'))
+        for on in ONS:
+            for back in (False, True):
+                if quick and back and on != 'enter':
+                    continue
+                for k in range(min(n, 10 if quick else 14) * (2 if on == 'both' else 1)):
+                    for acts in ([['remove', 'cur']], [['replace', 'cur', 'zz']], [['remove', 'next']], [['remove', 'prev']])[:3 if quick else 4]:
+                        out.append(dict(on=on, back=back, recurse=True, self_=True, src=src, wroot=[], script=[[k, acts]],
+                                        all='F', mode='exec'))
     return out
 
 
@@ -698,19 +830,25 @@ def collapse_cases():
 
 def sweep(ctx):
     q = ctx.quick
-    sc = scope_cases()
+    sc = scope_cases(q)
     for c, r in zip(sc, pmap(_run, sc)):
         ctx.tally('scope_end', r.get('end'))
         ctx.count([c['src'], c['back'], c['script'], 'scope'], r.get('n_mut', 0) > 0)
         report_viol(ctx, c, r, 'scope walk')
     # corpus programs: oracle + correspondence through observed trees
-    cases = collapse_cases() + prog_cases(ctx, 60 if q else 500, 5 if q else 14, 4 if q else 40)
+    cases = collapse_cases() + catalogue_cases(q) + prog_cases(ctx, 60 if q else 500, 5 if q else 14, 4 if q else 40)
     run_compare(ctx, 'walk(corpus programs, observed mutations) vs Pfst.WalkMut machines', cases, False, 'corpus program',
                 'prog_')
     # search / sub
     rng = random.Random(ctx.rng.random())
     progs = LIST_PROGS * (3 if q else 20) + corpus.programs(rng, 40 if q else 400, stdlib=0)
     args = [(p, rng.randrange(1 << 30)) for p in progs for _ in range(4 if q else 6)]
+    sd = subdet_cases(q)
+    for lst in pmap(_subdet_case, sd):
+        for on, cls, detail, w in lst:
+            ctx.fail(f'C15|{on}|replace|cur|{cls}', 'sub()/subn() as consumer: ' + detail, w)
+    ctx.count(None, n=len(sd))
+    ctx.notes['subdet_runs'] = len(sd)
     for fn, nm in ((_search_case, 'search'), (_sub_case, 'sub')):
         res = pmap(fn, args)
         n = 0
@@ -750,9 +888,10 @@ def replay(ctx, data):
         return
     if 'case' in w:
         r = _run(w['case'])
-        if r.get('viol') or r.get('end') != 'done':
-            print('yields:', r.get('yields'), 'end:', r.get('end'), 'final:', r.get('final_src'))
         for cls, detail, last in r.get('viol', []):
+            ctx.fail('replay', f'{cls}: {detail}', w)
+    elif w.get('consumer') == 'subdet':
+        for on, cls, detail, _ in _subdet_case({k: v for k, v in w.items() if k != 'consumer'}):
             ctx.fail('replay', f'{cls}: {detail}', w)
     elif w.get('consumer') in ('search', 'sub'):
         fn = _search_case if w['consumer'] == 'search' else _sub_case
